@@ -161,8 +161,8 @@ theorem transfOptList_len (n : Nsp) (b : List String) : ∀ (es es' : List (Opti
       cases pure_ok h
       simp [transfOptList_len n b es es'' hes]
 
-theorem transfComps_ne_nil (n : Nsp) (b : List String) : ∀ (gs gs' : List Comp),
-    transfComps n b gs = .ok gs' → gs ≠ [] → gs' ≠ []
+theorem transfComps_ne_nil (n : Nsp) (f b : List String) : ∀ (gs gs' : List Comp),
+    transfComps n f b gs = .ok gs' → gs ≠ [] → gs' ≠ []
   | [], _, _, hne => absurd rfl hne
   | .mk t i ifs a :: gs, gs', h, _ => by
       simp only [transfComps] at h
@@ -329,7 +329,7 @@ mutual
         obtain ⟨gens', hg, h⟩ := bind_ok h
         cases pure_ok h
         simp only [wfE]
-        exact ⟨transf_wf n _ elt elt' he hw.1, transfComps_ne_nil n _ gens gens' hg hw.2.1, transfComps_wf n _ gens gens' hg hw.2.2⟩
+        exact ⟨transf_wf n _ elt elt' he hw.1, transfComps_ne_nil n _ _ gens gens' hg hw.2.1, transfComps_wf n _ _ gens gens' hg hw.2.2⟩
     | b, .setComp elt gens, e', h, hw => by
         simp only [wfE] at hw
         simp only [transf] at h
@@ -338,7 +338,7 @@ mutual
         obtain ⟨gens', hg, h⟩ := bind_ok h
         cases pure_ok h
         simp only [wfE]
-        exact ⟨transf_wf n _ elt elt' he hw.1, transfComps_ne_nil n _ gens gens' hg hw.2.1, transfComps_wf n _ gens gens' hg hw.2.2⟩
+        exact ⟨transf_wf n _ elt elt' he hw.1, transfComps_ne_nil n _ _ gens gens' hg hw.2.1, transfComps_wf n _ _ gens gens' hg hw.2.2⟩
     | b, .generatorExp elt gens, e', h, hw => by
         simp only [wfE] at hw
         simp only [transf] at h
@@ -347,7 +347,7 @@ mutual
         obtain ⟨gens', hg, h⟩ := bind_ok h
         cases pure_ok h
         simp only [wfE]
-        exact ⟨transf_wf n _ elt elt' he hw.1, transfComps_ne_nil n _ gens gens' hg hw.2.1, transfComps_wf n _ gens gens' hg hw.2.2⟩
+        exact ⟨transf_wf n _ elt elt' he hw.1, transfComps_ne_nil n _ _ gens gens' hg hw.2.1, transfComps_wf n _ _ gens gens' hg hw.2.2⟩
     | b, .dictComp k v gens, e', h, hw => by
         simp only [wfE] at hw
         simp only [transf] at h
@@ -358,7 +358,7 @@ mutual
         cases pure_ok h
         simp only [wfE]
         exact ⟨transf_wf n _ k k' hk hw.1, transf_wf n _ v v' hv hw.2.1,
-          transfComps_ne_nil n _ gens gens' hg hw.2.2.1, transfComps_wf n _ gens gens' hg hw.2.2.2⟩
+          transfComps_ne_nil n _ _ gens gens' hg hw.2.2.1, transfComps_wf n _ _ gens gens' hg hw.2.2.2⟩
     | b, .joinedStr vs, e', h, hw => by
         simp only [wfE] at hw
         simp only [transf] at h
@@ -598,9 +598,9 @@ mutual
         exact ⟨transf_wf n b v v' hv hw.1, transfKeywords_wf n b ks ks'' hk hw.2⟩
   termination_by structural _ x => x
 
-  theorem transfComps_wf (n : Nsp) : ∀ (b : List String) (gs gs' : List Comp), transfComps n b gs = .ok gs' → wfG gs → wfG gs'
-    | b, [], gs', h, _ => by simp only [transfComps] at h; cases h; simp only [wfG]
-    | b, .mk t i ifs a :: gs, gs', h, hw => by
+  theorem transfComps_wf (n : Nsp) : ∀ (f b : List String) (gs gs' : List Comp), transfComps n f b gs = .ok gs' → wfG gs → wfG gs'
+    | f, b, [], gs', h, _ => by simp only [transfComps] at h; cases h; simp only [wfG]
+    | f, b, .mk t i ifs a :: gs, gs', h, hw => by
         simp only [wfG] at hw
         simp only [transfComps] at h
         obtain ⟨t', ht, h⟩ := bind_ok h
@@ -610,9 +610,9 @@ mutual
         cases pure_ok h
         simp only [wfG]
         have htt := transfTarget_wf n b t t' ht hw.2.1
-        exact ⟨by rw [htt.2]; exact hw.1, htt.1, transf_wf n b i i' hi hw.2.2.1, transfList_wfL n b ifs ifs' hifs hw.2.2.2.1,
-          transfComps_wf n b gs gs'' hg hw.2.2.2.2⟩
-  termination_by structural _ x => x
+        exact ⟨by rw [htt.2]; exact hw.1, htt.1, transf_wf n f i i' hi hw.2.2.1, transfList_wfL n b ifs ifs' hifs hw.2.2.2.1,
+          transfComps_wf n b b gs gs'' hg hw.2.2.2.2⟩
+  termination_by structural _ _ x => x
   -- targets keep their kind and stay well-formed
   theorem transfTarget_wf (n : Nsp) : ∀ (b : List String) (t t' : Expr), transfTarget n b t = .ok t' →
       wfE t → wfE t' ∧ targetKind t' = targetKind t
